@@ -1,0 +1,30 @@
+// Copyright 2021 Ivan Korobkov. All rights reserved.
+// Use of this software is governed by the MIT License
+// that can be found in the LICENSE file.
+
+package types
+
+import (
+	"errors"
+
+	"github.com/basecomplextech/spec/internal/decode"
+)
+
+// addValueSize adds the size of the last value in b to the total size of the values parsed so far,
+// and returns an error when the values of a message or a list do not fit into its data together.
+//
+// Table entries which share or overlap a value make the parser visit that value once per entry,
+// and an exponential number of times over the nesting depth, so a message of several hundred bytes
+// would never be parsed. The size is checked before the value is parsed.
+func addValueSize(total int, b []byte, dataSize int) (int, error) {
+	_, n, err := decode.DecodeTypeSize(b)
+	if err != nil {
+		return total, err
+	}
+
+	total += n
+	if total > dataSize {
+		return total, errors.New("parse: overlapping values")
+	}
+	return total, nil
+}
